@@ -152,14 +152,32 @@ Definition ex_hex_mesh : zmesh :=
 Example ex_hex_roundtrip : forallb (fun f => check_roundtrip (f, default_sw, ex_hex_mesh)) [Fmedit; Ftet; Fgeo] = true.
 Proof. vm_compute. reflexivity. Qed.
 
-(* REFUTED (known findings obj/relative-indices, mesh/count-on-keyword-line, mesh/dimension-2): legal files of independent
+(* REFUTED (known findings mesh/count-on-keyword-line, mesh/dimension-2; the first example, obj relative indices, is repaired): legal files of independent
    writers that mouette's importers misread.  1.0 = 4607182418800017408, 7.0 = 4619567317775286272 as bit patterns. *)
 Definition ex_obj_relative : list zline :=
   [[tW "v"; tF 0; tF 0; tF 0]; [tW "v"; tF 4607182418800017408; tF 0; tF 0]; [tW "v"; tF 0; tF 4607182418800017408; tF 0];
    [tW "f"; tI (-3); tI (-2); tI (-1)]].
-Lemma obj_relative_indices_refuted :
-  exists r, parse_fmt Fobj ex_obj_relative = Some r /\ rF r = [[-4; -3; -2]] /\ rF r <> [[0; 1; 2]].
-Proof. eexists. split; [vm_compute; reflexivity|]. split; [reflexivity|discriminate]. Qed.
+(* relative references are resolved against the vertices read so far (repaired in /repo: resolve_index) *)
+Lemma obj_relative_example :
+  exists r, parse_fmt Fobj ex_obj_relative = Some r /\ rF r = [[0; 1; 2]].
+Proof. eexists. split; vm_compute; reflexivity. Qed.
+(* the hypotheses of C04_interop_obj_relative and the index guards of C04_roundtrip_obj / C04_interop_obj hold of ex_mesh *)
+Example ex_obj_rel_hyps :
+  Forall (fun e : Z * Z => fst e < zlen (mV ex_mesh) /\ snd e < zlen (mV ex_mesh)) (mE ex_mesh)
+  /\ Forall (Forall (fun i => i < zlen (mV ex_mesh))) (mF ex_mesh)
+  /\ nonneg_edges (mE ex_mesh) /\ nonneg_elems (mF ex_mesh).
+Proof. vm_compute. repeat constructor; discriminate. Qed.
+Example ex_obj_rel_loads :
+  parse_fmt Fobj (@ref_print_obj_rel Z Z (Z * Z) (Z * Z) idZ ex_mesh)
+  = Some (raw_of (Z * Z) (map (@v3 Z) (mV ex_mesh)) [[0; 1]; [1; 2]] (mF ex_mesh) []).
+Proof. vm_compute. reflexivity. Qed.
+
+Definition ex_obj_relative_mixed : list zline :=
+  [[tW "v"; tF 0; tF 0; tF 0]; [tW "v"; tF 4607182418800017408; tF 0; tF 0]; [tW "v"; tF 0; tF 4607182418800017408; tF 0];
+   [tW "f"; tW "-3/-3"; tW "-2//7"; tI (-1)]; [tW "v"; tF 0; tF 0; tF 4607182418800017408]; [tW "f"; tI (-1); tI 1; tI (-2)]; [tW "l"; tI (-1); tI 1]].
+Example obj_relative_mixed_example :
+  exists r, parse_fmt Fobj ex_obj_relative_mixed = Some r /\ rF r = [[0; 1; 2]; [3; 0; 2]] /\ rE r = [[0; 3]].
+Proof. eexists. repeat split; vm_compute; reflexivity. Qed.
 
 Definition ex_medit_inline : list zline :=
   [[tW "MeshVersionFormatted"; tI 2]; [tW "Dimension"; tI 3]; [tW "Vertices"; tI 1]; [tF 0; tF 0; tF 0; tI 0]; [tW "End"]].
@@ -206,9 +224,9 @@ Lemma roundtrip_xyz_stmt (m : mesh F Cx) L : no_xyz_attrs m ->
   @print_xyz F Ftxt Cx Ctxt pf m = Some L -> @parse_xyz F Ftxt Cx Ctxt rf f_of_int L = Some (vocab_xyz m).
 Proof. intros _. now apply xyz_roundtrip. Qed.
 
-Lemma roundtrip_obj_stmt sw (m : mesh F Cx) L : no_obj_attrs m ->
+Lemma roundtrip_obj_stmt sw (m : mesh F Cx) L : no_obj_attrs m -> nonneg_edges (mE m) -> nonneg_elems (mF m) ->
   @print_obj F Ftxt Cx Ctxt pf sw m = Some L -> @parse_obj F Ftxt Cx Ctxt rf f_of_int L = vocab_obj sw m.
-Proof. intros _. now apply obj_roundtrip. Qed.
+Proof. intros _ HE HF. now apply obj_roundtrip. Qed.
 
 Lemma interop_xyz_stmt (m : mesh F Cx) : no_xyz_attrs m ->
   (forall L, @print_xyz F Ftxt Cx Ctxt pf m = Some L -> @ref_parse_xyz F Ftxt Cx Ctxt rf f_of_int L = Some (vocab_xyz m))
@@ -218,9 +236,18 @@ Proof. intros _. split; [intros; eapply xyz_ref_reads; eassumption | now apply x
 Lemma interop_obj_stmt sw (m : mesh F Cx) : no_obj_attrs m ->
   (forall L el, obj_exported_edges sw m = Some el -> @obj_ref_ok F Cx el m -> @print_obj F Ftxt Cx Ctxt pf sw m = Some L ->
      @ref_parse_obj F Ftxt Cx Ctxt rf f_of_int L = Some (raw_of Cx (map (@v3 F) (mV m)) (map e2 el) (mF m) []))
-  /\ @parse_obj F Ftxt Cx Ctxt rf f_of_int (@ref_print_obj F Ftxt Cx Ctxt pf m)
-     = Some (raw_of Cx (map (@v3 F) (mV m)) (map (fun e => keyify2 (fst e) (snd e)) (mE m)) (mF m) []).
-Proof. intros _. split; [intros; eapply obj_ref_reads; eassumption | now apply obj_loads_ref]. Qed.
+  /\ (nonneg_edges (mE m) -> nonneg_elems (mF m) ->
+      @parse_obj F Ftxt Cx Ctxt rf f_of_int (@ref_print_obj F Ftxt Cx Ctxt pf m)
+      = Some (raw_of Cx (map (@v3 F) (mV m)) (map (fun e => keyify2 (fst e) (snd e)) (mE m)) (mF m) [])).
+Proof. intros _. split; [intros; eapply obj_ref_reads; eassumption | intros; now apply obj_loads_ref]. Qed.
+
+(* a file whose faces and polylines use RELATIVE references (i - n after the n vertices) loads as the mesh it denotes *)
+Lemma interop_obj_relative_stmt (m : mesh F Cx) :
+  Forall (fun e : Z * Z => fst e < zlen (mV m) /\ snd e < zlen (mV m)) (mE m) ->
+  Forall (Forall (fun i => i < zlen (mV m))) (mF m) ->
+  @parse_obj F Ftxt Cx Ctxt rf f_of_int (@ref_print_obj_rel F Ftxt Cx Ctxt pf m)
+  = Some (raw_of Cx (map (@v3 F) (mV m)) (map (fun e => keyify2 (fst e) (snd e)) (mE m)) (mF m) []).
+Proof. now apply obj_loads_relative. Qed.
 
 Lemma interop_off_stmt (m : mesh F Cx) :
   @ref_parse_off F Ftxt Cx Ctxt rf f_of_int (concat (print_off Ctxt pf m)) = Some (vocab_off m)
